@@ -491,6 +491,21 @@ func (p *Parser) parseAccountDirective(startPos Position) ast.Directive {
 	return dir
 }
 
+// directiveCommodity is the commodity named by the current token of a commodity or price
+// directive. A commodity token ends where its lexeme ends (a quoted symbol with its closing
+// quote), so its End is recorded as parseAmount does. A text token runs on over the blanks
+// that follow it: its End is left unset and the end is derived from the symbol.
+func (p *Parser) directiveCommodity() ast.Commodity {
+	commodity := ast.Commodity{
+		Symbol: p.current.Value,
+		Range:  ast.Range{Start: toASTPosition(p.current.Pos)},
+	}
+	if p.current.Type == TokenCommodity {
+		commodity.Range.End = toASTPosition(p.current.End)
+	}
+	return commodity
+}
+
 func (p *Parser) parseCommodityDirective(startPos Position) ast.Directive {
 	dir := ast.CommodityDirective{
 		Range: ast.Range{Start: toASTPosition(startPos)},
@@ -500,10 +515,7 @@ func (p *Parser) parseCommodityDirective(startPos Position) ast.Directive {
 	switch p.current.Type {
 	case TokenCommodity:
 		symbol := p.current.Value
-		dir.Commodity = ast.Commodity{
-			Symbol: symbol,
-			Range:  ast.Range{Start: toASTPosition(p.current.Pos)},
-		}
+		dir.Commodity = p.directiveCommodity()
 		p.advance()
 
 		// Collect number part for format (no space for currency symbols)
@@ -517,18 +529,12 @@ func (p *Parser) parseCommodityDirective(startPos Position) ast.Directive {
 		p.advance()
 
 		if p.current.Type == TokenCommodity || p.current.Type == TokenText {
-			dir.Commodity = ast.Commodity{
-				Symbol: p.current.Value,
-				Range:  ast.Range{Start: toASTPosition(p.current.Pos)},
-			}
+			dir.Commodity = p.directiveCommodity()
 			dir.Format = number + " " + p.current.Value
 			p.advance()
 		}
 	case TokenText:
-		dir.Commodity = ast.Commodity{
-			Symbol: p.current.Value,
-			Range:  ast.Range{Start: toASTPosition(p.current.Pos)},
-		}
+		dir.Commodity = p.directiveCommodity()
 		p.advance()
 	}
 
@@ -589,10 +595,7 @@ func (p *Parser) parsePriceDirective(startPos Position) ast.Directive {
 	dir.Date = *date
 
 	if p.current.Type == TokenCommodity || p.current.Type == TokenText {
-		dir.Commodity = ast.Commodity{
-			Symbol: p.current.Value,
-			Range:  ast.Range{Start: toASTPosition(p.current.Pos)},
-		}
+		dir.Commodity = p.directiveCommodity()
 		p.advance()
 	} else {
 		p.error("expected commodity")
